@@ -22,7 +22,7 @@ def programs(draw, tier):
     helpers = []
     # ---- payload of the subject task
     kind = draw(st.sampled_from(['sleeps', 'sleeps', 'lock', 'queue', 'borrow', 'scope', 'instant',
-                                 'mixed']))
+                                 'mixed', 'cleanup', 'cleanup']))
     pay = []
     n = draw(st.integers(0, 4))
     for _ in range(n):
@@ -39,6 +39,9 @@ def programs(draw, tier):
         helpers.append({'name': 'h_res', 'steps': [{'op': 'borrow', 'r': 'R', 'amounts': {'a': 2}, 'body': [
             {'op': 'sleep', 'd': draw(st.sampled_from([0.5, 1, 2]))}]}]})
         pay.append({'op': 'borrow', 'r': 'R', 'amounts': {'a': draw(st.integers(0, 2))}, 'body': [sleep()]})
+    if kind == 'cleanup':
+        pay.append({'op': 'cleanup', 'body': [sleep(), sleep()],
+                    'final': [{'op': 'sleep', 'd': draw(st.sampled_from([0, 1, 2, 4]))}, sleep()]})
     if kind in ('scope',):
         pay.append({'op': 'scope', 'children': [{'name': 's0c', 'steps': [sleep(), sleep()]}],
                     'body': [sleep()]})
@@ -241,6 +244,7 @@ class C06(Check):
             elif cl:
                 out.features.add('cancel_after_done')
             created_cancel = bool(live) and live[0][2] == 'CREATED'
+            has_cleanup = any(s['op'] == 'cleanup' for s in find_act(prog, name)['steps'])
             if live and started and started[0][0] > live[0][0] and name not in delayed:
                 out.fail('cancel_created', 'started_after_cancel', '%s: cancel() before its first statement, yet '
                          'its code ran afterwards;%s' % (name, ctx))
@@ -255,12 +259,12 @@ class C06(Check):
                 # cancelled during its start delay (after=/at=): no code of the payload ever ran
                 out.features.add('cancel_in_start_delay')
                 expect = ('cancelled', live[0][3])
-            elif excd and excd[0][5] == ('signal', 'CancelTask'):
+            elif excd and excd[0][5][:2] == ('signal', 'CancelTask'):
                 # (d) delivered while suspended: same time step as the first live call
                 if not live:
                     out.fail('cancel_running', 'spurious', '%s saw CancelTask without a cancel() call;%s' % (name, ctx))
                     continue
-                if excd[0][4] != live[0][1]:
+                if excd[0][4] != live[0][1] and not has_cleanup:
                     out.fail('cancel_running', 'late', '%s cancelled at %r, CancelTask seen at %r;%s' % (
                         name, live[0][1], excd[0][4], ctx))
                 if final != 'CANCELLED':
@@ -289,8 +293,20 @@ class C06(Check):
                     out.fail('cancel_running', 'not_delivered', '%s: cancel() while %s, neither CancelTask nor '
                              'completion observed;%s' % (name, live[0][2], ctx))
                 expect = None
+            # every cancel() of a started, still running task is acted upon within its time step:
+            # the task is interrupted (again, if it is busy cleaning up) or ends there
+            for c in live:
+                if c[2] != 'RUNNING' or not started or started[0][0] > c[0]:
+                    continue
+                hit = [e for e in evs if e[0] > c[0] and e[4] == c[1]
+                       and e[3] in ('exc', 'cleanup_begin', 'end')]
+                if not hit:
+                    nth = 'first' if c is live[0] else 'repeated'
+                    out.fail('cancel_running', 'not_acted_on:' + nth, '%s: cancel() at t=%r (seq %s) while '
+                             'suspended was not delivered in that time step;%s' % (name, c[1], c[0], ctx))
+                    break
             # nothing of the task runs after the cancellation was delivered / after it ended
-            if live and not created_cancel and not subject_fails:
+            if live and not created_cancel and not subject_fails and not has_cleanup:
                 t_cancel = live[0][1]
                 late = [e for e in evs if e[3] in ('ok', 'start', 'got') and e[4] is not None and e[4] > t_cancel]
                 if late:
